@@ -264,11 +264,47 @@ void touch_dynamic_array_ro(A a)
     (void)a.sbe_size();
 }
 
+// a single-pass iterator: instantiates the input-iterator overloads (element by element insertion)
+template<typename V>
+struct input_it
+{
+    typedef std::input_iterator_tag iterator_category;
+    typedef V value_type;
+    typedef std::ptrdiff_t difference_type;
+    typedef const V* pointer;
+    typedef V reference;
+    const V* p;
+    V operator*() const
+    {
+        return *p;
+    }
+    input_it& operator++()
+    {
+        ++p;
+        return *this;
+    }
+    input_it operator++(int)
+    {
+        input_it t = *this;
+        ++p;
+        return t;
+    }
+    friend bool operator==(input_it a, input_it b)
+    {
+        return a.p == b.p;
+    }
+    friend bool operator!=(input_it a, input_it b)
+    {
+        return a.p != b.p;
+    }
+};
+
 template<typename A>
 void touch_dynamic_array_rw(A a)
 {
     typedef typename A::value_type V;
     const V src[2] = {};
+    (void)a.insert(a.begin(), input_it<V>{src}, input_it<V>{src + 1});
     a.clear();
     a.resize(1);
     a.resize(1, V{});
